@@ -538,6 +538,11 @@ func (p *P2P) NewStreams() (streams map[lib.Topic]*Stream) {
 		if i == lib.Topic_HEARTBEAT {
 			continue
 		}
+		// only defined topics get a stream: a packet for an undefined topic id must end in
+		// ErrBadStream (connection closed), not be buffered and dropped by a stream without an inbox
+		if _, defined := lib.Topic_name[int32(i)]; !defined {
+			continue
+		}
 		streams[i] = &Stream{
 			topic:        i,
 			msgAssembler: make([]byte, 0),
